@@ -78,6 +78,9 @@ def _base_locals(body, op, depth=10):
                 nxt.append(rv[1][0])
             elif rv[0] == 'use' and rv[1][0] in ('copy', 'move'):
                 nxt.append(rv[1][1][0])
+            elif rv[0] == 'agg' and rv[1] not in ('closure', 'coroutine'):
+                # a value moved through a tuple / struct (`let (a, b) = helper(..)` after splicing): what was packed
+                nxt.extend(o[1][0] for o in rv[5] if o[0] in ('copy', 'move'))
         if not nxt or d == 0:
             out.add(l)
         for n in nxt:
